@@ -30,6 +30,10 @@ func c07Alphabet() []fsx.Op {
 		al = append(al, fsx.Op{K: "COMMIT", H: f})
 	}
 	al = append(al, fsx.Op{K: "CREATE", H: "root", N: "c"}, fsx.Op{K: "SETATTR", H: "root/f", Size: 100})
+	// the same bytes again with a stronger stability level (the first f symbol is the UNSTABLE write of pattern 0x21 at 0;
+	// a write that changes no byte is acknowledged like any other), and a write inside a block
+	al = append(al, fsx.Op{K: "WRITE", H: "root/f", Off: 0, Cnt: 4096, Pat: 0x21, Stable: 2}, fsx.Op{K: "WRITE", H: "root/f", Off: 100, Cnt: 50, Pat: 0x3a, Stable: 0},
+		fsx.Op{K: "WRITE", H: "root/f", Off: 100, Cnt: 50, Pat: 0x3a, Stable: 2})
 	// attribute changes without a size (a stable operation like any other: it and everything before it survive)
 	al = append(al, fsx.Op{K: "SETATTR", H: "root/f", NoSize: true, Mtime: 777}, fsx.Op{K: "SETATTR", H: "root/g", NoSize: true, Atime: 888, Mtime: 999})
 	return al
